@@ -47,8 +47,8 @@ pub struct Uco {
     pub ucoaction: UcoAction,
 
     /// When this happened
-    #[br(parse_with = binrw_parse_duration::<u32, 1, _>)]
-    #[bw(write_with = binrw_write_duration::<u32, 1, _>)]
+    #[br(parse_with = binrw_parse_duration::<u32, 10, _>)]
+    #[bw(write_with = binrw_write_duration::<u32, 10, _>)]
     pub time: Duration,
 
     /// Was there any car contact?
